@@ -407,7 +407,10 @@ def run_combine(args):
     return rec
 
 
-def run(ctx, n, validate, seeds=None):
+def run(ctx, n, validate, seeds=None, combine_seeds=None):
+    if combine_seeds is not None:
+        recs = [run_combine((s, ctx.workdir)) for s in combine_seeds]
+        return recs, validate(ctx, recs, 1, "atom_trace_combine", module="Region_AtomTrace", consts={"NB": MAXATOMS})
     seeds = seeds if seeds is not None else [ctx.seed * 100003 + i for i in range(n)]
     with mp.Pool(16) as pool:
         recs = pool.map(run_one, [(s, ctx.workdir) for s in seeds], chunksize=4)
